@@ -25,7 +25,7 @@ ASSUMPTIONS = [
 ]
 
 
-QUICK_BUDGET = {"cases": 240, "deadline_s": 110, "case_timeout_s": 90, "floors": {"status_rows": 500, "filtered_views": 400, "previews_snapshotted": 700, "run_compared": 150}}
+QUICK_BUDGET = {"cases": 240, "deadline_s": 170, "case_timeout_s": 90, "floors": {"status_rows": 379, "filtered_views": 251, "previews_snapshotted": 420, "run_compared": 84}}
 THOROUGH_FACTOR = 36  # thorough = the same workload with 36x the cases (floors scale along)
 
 
